@@ -2,7 +2,9 @@
 //   drv_c17 <out.ndjson> <seed> <thorough>
 #include "vt_call.hpp"
 
+#include <atomic>
 #include <cstdlib>
+#include <thread>
 
 using namespace vt;
 
@@ -126,6 +128,41 @@ static void family(rng& g, bool thorough, bool dists)
     }
 }
 
+// two integrations of the same instantiation at the same time in two threads of one process: each is, event for event, what it is alone
+// (the events of each thread are collected and written one run after the other)
+template <typename T>
+static void concurrent_family(rng& g)
+{
+    for (int kind = 0; kind != 2; ++kind)
+    {
+        std::vector<std::string> buf[2];
+        call_ctx<T> c[2];
+        script_engine e[2] = {make_engine(g, 223), make_engine(g, 223)};
+        hep::vegas_pdf<T> pdf(1, 4);
+        pdf.set_bin_left(0, 1, T(0.0625)); pdf.set_bin_left(0, 2, T(0.25)); pdf.set_bin_left(0, 3, T(0.5));
+        std::vector<T> const w{T(2), T(1), T(1), T(0)};
+        std::vector<std::size_t> const iters{40, 40, 40};
+        for (int i = 0; i != 2; ++i)
+        {
+            c[i].cfg.kind = kind ? "mc" : "vegas";
+            c[i].cfg.d = 1;
+            c[i].cfg.densfam = 0;
+            c[i].plan = make_plan(g, 97);
+        }
+        std::atomic<int> ready{0};
+        auto body = [&](int i) {
+            vt::sink::capture() = &buf[i];
+            ++ready;
+            while (ready.load() < 2) std::this_thread::yield();
+            if (kind) run_mc<T>(c[i], e[i], w, iters); else run_vegas<T>(c[i], e[i], pdf, iters, T(1.5));
+            vt::sink::capture() = nullptr;
+        };
+        std::thread t0(body, 0), t1(body, 1);
+        t0.join(); t1.join();
+        for (int i = 0; i != 2; ++i) for (auto const& line : buf[i]) out().write(line);
+    }
+}
+
 // random weight vectors that end with disabled channels, every random number the largest value below one
 template <typename T>
 static void top_family(rng& g, int count)
@@ -159,6 +196,7 @@ int main(int argc, char** argv)
     family<double>(g, thorough, false);
     family<long double>(g, thorough, true);
     top_family<float>(g, thorough ? 120 : 30); top_family<double>(g, thorough ? 120 : 30); top_family<long double>(g, thorough ? 120 : 30);
+    concurrent_family<double>(g); concurrent_family<float>(g);
     if (thorough) { family<float>(g, true, false); family<double>(g, true, true); family<long double>(g, true, false); }
     out().close();
     return 0;
